@@ -12,6 +12,7 @@ where
     const CARRIAGE_RETURN: u8 = b'\r';
 
     let mut n = 0;
+    let mut has_pending_cr = false;
 
     loop {
         let src = reader.fill_buf().await?;
@@ -20,28 +21,33 @@ where
             break;
         }
 
-        let len = match memchr(LINE_FEED, src) {
-            Some(i) => {
-                let line = &src[..i];
+        // The carriage return that ended the previous buffer is part of the line terminator only
+        // if a line feed follows.
+        if has_pending_cr && src[0] != LINE_FEED {
+            buf.push(CARRIAGE_RETURN);
+        }
 
-                if line.ends_with(&[CARRIAGE_RETURN]) {
-                    let end = line.len() - 1;
-                    buf.extend_from_slice(&line[..end]);
-                } else {
-                    buf.extend_from_slice(line);
-                }
-
-                i + 1
-            }
-            None => {
-                buf.extend(src);
-                src.len()
-            }
+        let (line, len) = match memchr(LINE_FEED, src) {
+            Some(i) => (&src[..i], i + 1),
+            None => (src, src.len()),
         };
+
+        has_pending_cr = len == line.len() && line.ends_with(&[CARRIAGE_RETURN]);
+
+        if line.ends_with(&[CARRIAGE_RETURN]) {
+            let end = line.len() - 1;
+            buf.extend_from_slice(&line[..end]);
+        } else {
+            buf.extend_from_slice(line);
+        }
 
         reader.consume(len);
 
         n += len;
+    }
+
+    if has_pending_cr {
+        buf.push(CARRIAGE_RETURN);
     }
 
     Ok(n)
@@ -69,6 +75,30 @@ mod tests {
         t(&mut buf, b"ACGT\r\n", b"ACGT").await?;
         t(&mut buf, b"ACGT\r\n>sq1\r\n", b"ACGT").await?;
         t(&mut buf, b"ACGT\r\n\r\nACGT\r\nAC\r\n\r\n", b"ACGTACGTAC").await?;
+
+        Ok(())
+    }
+
+    #[tokio::test]
+    async fn test_read_sequence_with_small_buffers() -> io::Result<()> {
+        use tokio::io::BufReader;
+
+        async fn t(src: &[u8]) -> io::Result<()> {
+            let mut expected = Vec::new();
+            read_sequence(&mut &src[..], &mut expected).await?;
+
+            for capacity in 1..=src.len() {
+                let mut reader = BufReader::with_capacity(capacity, src);
+                let mut actual = Vec::new();
+                read_sequence(&mut reader, &mut actual).await?;
+                assert_eq!(actual, expected, "capacity = {capacity}");
+            }
+
+            Ok(())
+        }
+
+        t(b"ACGT\r\nAC\r\n\r\n>sq1\r\n").await?;
+        t(b"AC\rGT\nAC\r\r\nA\r").await?;
 
         Ok(())
     }
